@@ -1638,4 +1638,94 @@ theorem linuxCoalesce_pkgs {arts : List Layer} {r : Report} (h : linuxCoalesce a
   · simp at h1
   · exact (linux_entries_ok db p h1).1
 
+/-! ### rhel report: unique keys, origin of the stored packages -/
+
+theorem rhelFinalPkgs_from (envs : List ((String × String) × Env)) (later : List Layer) (pkgs : List Pkg) (ir r : Report)
+    (h : rhelFinalPkgs envs later pkgs ir = .ok r) (h1 : KeysUniq ir.pkgs) (h2 : KeysUniq ir.envs) :
+    KeysUniq r.pkgs ∧ KeysUniq r.envs ∧ ∀ id p, (id, p) ∈ r.pkgs → (id, p) ∈ ir.pkgs ∨ p ∈ pkgs := by
+  induction pkgs generalizing ir with
+  | nil => simp only [rhelFinalPkgs, Except.ok.injEq] at h; subst h; exact ⟨h1, h2, fun _ _ hm => Or.inl hm⟩
+  | cons q rest ih =>
+    simp only [rhelFinalPkgs] at h
+    split at h
+    · obtain ⟨u1, u2, u3⟩ := ih ir h h1 h2
+      exact ⟨u1, u2, fun id p hm => (u3 id p hm).imp (fun x => x) (List.mem_cons_of_mem _)⟩
+    · split at h
+      · split at h
+        · simp at h
+        · obtain ⟨u1, u2, u3⟩ := ih _ h (keysUniq_aset _ _ h1) (keysUniq_aset _ _ h2)
+          refine ⟨u1, u2, fun id p hm => ?_⟩
+          rcases u3 id p hm with h3 | h3
+          · simp only [Report.addPkgEnv] at h3
+            rcases mem_aset h3 with ⟨_, hv⟩ | hold
+            · right; rw [hv]; exact List.mem_cons_self
+            · exact Or.inl hold
+          · exact Or.inr (List.mem_cons_of_mem _ h3)
+      · obtain ⟨u1, u2, u3⟩ := ih ir h h1 h2
+        exact ⟨u1, u2, fun id p hm => (u3 id p hm).imp (fun x => x) (List.mem_cons_of_mem _)⟩
+
+theorem rhelFinal_from (envs : List ((String × String) × Env)) (todo : List Layer) (ir r : Report)
+    (h : rhelFinal envs todo ir = .ok r) (h1 : KeysUniq ir.pkgs) (h2 : KeysUniq ir.envs) :
+    KeysUniq r.pkgs ∧ KeysUniq r.envs ∧ ∀ id p, (id, p) ∈ r.pkgs → (id, p) ∈ ir.pkgs ∨ p ∈ allPkgs todo := by
+  induction todo generalizing ir with
+  | nil => simp only [rhelFinal, Except.ok.injEq] at h; subst h; exact ⟨h1, h2, fun _ _ hm => Or.inl hm⟩
+  | cons a rest ih =>
+    simp only [rhelFinal] at h
+    cases hx : rhelFinalPkgs envs rest a.pkgs ir with
+    | error f => simp [hx] at h
+    | ok ir' =>
+      simp only [hx] at h
+      obtain ⟨v1, v2, v3⟩ := rhelFinalPkgs_from envs rest a.pkgs ir ir' hx h1 h2
+      obtain ⟨u1, u2, u3⟩ := ih ir' h v1 v2
+      refine ⟨u1, u2, fun id p hm => ?_⟩
+      rcases u3 id p hm with h3 | h3
+      · rcases v3 id p h3 with h4 | h4
+        · exact Or.inl h4
+        · right; simp [allPkgs, h4]
+      · right; simp only [allPkgs, List.flatMap_cons, List.mem_append]; exact Or.inr h3
+
+theorem allPkgs_congr {arts arts' : List Layer} (h : arts.map core = arts'.map core) : allPkgs arts = allPkgs arts' := by
+  have : ∀ (l : List Layer), allPkgs l = (l.map core).flatMap (fun c => c.2.1) := by
+    intro l
+    induction l with
+    | nil => rfl
+    | cons a l ih => simp [allPkgs, core] at ih ⊢; rw [ih]
+  rw [this, this, h]
+
+theorem rhelCoalesce_pkgs {arts : List Layer} {r : Report} (h : rhelCoalesce arts = .ok r) :
+    KeysUniq r.pkgs ∧ KeysUniq r.envs ∧ ∀ id p, (id, p) ∈ r.pkgs → p ∈ allPkgs arts := by
+  unfold rhelCoalesce at h
+  simp only at h
+  obtain ⟨u1, u2, u3⟩ := rhelFinal_from _ _ _ _ h (by simp [KeysUniq]) (by simp [KeysUniq])
+  refine ⟨u1, u2, fun id p hm => ?_⟩
+  rcases u3 id p hm with h1 | h1
+  · simp at h1
+  · rw [← allPkgs_congr (rhelShare_core arts)]; exact h1
+
+/-- the last layer with packages, as a decomposition -/
+theorem lastPkgs_decomp {arts pre post : List Layer} {a : Layer} (hdec : arts = pre ++ a :: post)
+    (ha : a.pkgs ≠ []) (hpost : ∀ b ∈ post, b.pkgs = []) : lastPkgs arts = a.pkgs := by
+  subst hdec
+  have hp : lastPkgs post = [] := (lastPkgs_nil_iff post).2 hpost
+  induction pre with
+  | nil => simp [lastPkgs, hp]
+  | cons x pre ih =>
+    simp only [List.cons_append, lastPkgs, ih]
+    have : ¬ a.pkgs.isEmpty = true := by simpa using ha
+    simp [this]
+
+theorem lastPkgs_spec {arts : List Layer} (h : lastPkgs arts ≠ []) :
+    ∃ pre a post, arts = pre ++ a :: post ∧ lastPkgs arts = a.pkgs ∧ ∀ b ∈ post, b.pkgs = [] := by
+  induction arts with
+  | nil => simp [lastPkgs] at h
+  | cons x rest ih =>
+    simp only [lastPkgs] at h ⊢
+    by_cases hr : (lastPkgs rest).isEmpty = true
+    · simp only [hr, if_true] at h ⊢
+      have hr' : lastPkgs rest = [] := by simpa using hr
+      exact ⟨[], x, rest, rfl, rfl, (lastPkgs_nil_iff rest).1 hr'⟩
+    · simp only [hr, Bool.false_eq_true, if_false] at h ⊢
+      obtain ⟨pre, a, post, h1, h2, h3⟩ := ih h
+      exact ⟨x :: pre, a, post, by simp [h1], h2, h3⟩
+
 end ClairModel.Coalesce
